@@ -30,6 +30,8 @@ import (
 	"github.com/VKCOM/statshouse/internal/vkgo/basictl"
 )
 
+var jsonSpecial = []byte{'"', '\\', '\n', '\r', '\t', '<', '>', '&', 8, 12, 0, 1, 0x1f, 0x7f}
+
 type gen struct {
 	r       *vu.Rng
 	noncan  bool // emit one non-canonical string header
@@ -60,16 +62,19 @@ func (g *gen) rawStr() []byte {
 	default:
 		l = r.Intn(14)
 	}
-	s := make([]byte, l)
+	s := make([]byte, 0, l+4)
 	mode := r.Intn(10)
-	for i := range s {
+	for len(s) < l {
 		switch {
 		case mode == 0:
-			s[i] = byte(r.U32()) // arbitrary bytes (not UTF-8)
+			s = append(s, byte(r.U32())) // arbitrary bytes (not UTF-8)
 		case mode == 1:
-			s[i] = "\"\\\n\t<\xc3\xa9"[r.Intn(7)]
+			// every character class the JSON string writers treat specially
+			s = append(s, jsonSpecial[r.Intn(len(jsonSpecial))])
+		case mode == 2:
+			s = append(s, []string{"\u00e9", "\u2028", "\u2029", "\ufffd", "\U0001F600", "a", "/"}[r.Intn(7)]...)
 		default:
-			s[i] = "abcXYZ019_-. "[r.Intn(13)]
+			s = append(s, "abcXYZ019_-. "[r.Intn(13)])
 		}
 	}
 	return s
@@ -717,6 +722,63 @@ func main() {
 				}
 				o.Hist["oracle:json"]++
 			}()
+		}
+		// TL2 correspondence: what Go wrote for this value (intact or damaged) is read by ReadTL2 and by the model
+		if _, is := obj1.(items.TL2); is && e.it.HasTL2 {
+			if w2, ok := writeTL2(obj1); ok && len(w2) > 0 && len(w2) < 600 {
+				in2 := append([]byte(nil), w2...)
+				k2 := "intact"
+				switch x := rng.Intn(100); {
+				case x < 40:
+				case x < 50:
+					k2 = "junk"
+					in2 = append(in2, le32(rng.U32())[:1+rng.Intn(4)]...)
+				case x < 65:
+					k2 = "truncated"
+					in2 = in2[:rng.Intn(len(in2))]
+				case x < 85:
+					k2 = "flip"
+					in2[rng.Intn(len(in2))] ^= byte(1 << rng.Intn(8))
+				case x < 95:
+					k2 = "byte"
+					in2[rng.Intn(len(in2))] = byte(rng.Pick(0, 1, 2, 3, 127, 128, 253, 254, 255, int64(len(in2)), int64(len(in2)-1)))
+				default:
+					k2 = "insert"
+					p := rng.Intn(len(in2) + 1)
+					in2 = append(in2[:p:p], append([]byte{byte(rng.Pick(0, 1, 2, 255, int64(rng.U32()&0xff)))}, in2[p:]...)...)
+				}
+				o2 := e.it.Create()
+				obs2, acc2 := "None", "rejected"
+				var rest2 []byte
+				var err2 error
+				pan := func() (p bool) {
+					defer func() {
+						if recover() != nil {
+							p = true
+						}
+					}()
+					rest2, err2 = o2.(items.TL2).ReadTL2(append([]byte(nil), in2...), &basictl.TL2ReadContext{})
+					return false
+				}()
+				text2 := fmt.Sprintf("tl2 %s kind=%s hex=%s", e.it.Key(), k2, hex.EncodeToString(in2))
+				if pan {
+					o.Fail("tl2_no_panic", o.N, text2)
+				} else {
+					if err2 == nil {
+						if rw, ok := writeTL2(o2); ok {
+							obs2, acc2 = fmt.Sprintf("(Some (%d, %s))", len(rest2), vu.Bytes(rw)), "accepted"
+						} else {
+							o.Fail("tl2_no_panic", o.N, text2+" (write after read)")
+						}
+					}
+					l2 := o.Case(text2, fmt.Sprintf("CRead2 %d%%nat %s %s", e.tid, vu.Bytes(in2), obs2), err2 == nil && len(in2) > 4, "tl2:"+k2, "tl2:"+acc2)
+					if k2 == "intact" && (err2 != nil || len(rest2) != 0) {
+						o.Fail("tl2_roundtrip", l2, text2)
+					}
+				}
+			} else if ok && len(w2) == 0 {
+				o.Hist["tl2:enum_element_item_writes_nothing"]++
+			}
 		}
 		// TL2: write -> read -> same TL1 bytes
 		if t2, ok := obj1.(items.TL2); ok && e.it.HasTL2 {
